@@ -136,7 +136,8 @@ package decoder
 //@   assert before completionAtPos#1 : [C08,name:own-block-is-the-outermost-block] outermost && arg3 == ite(outer != nil, as(outer.Body, "*hclsyntax.Body").SrcRange, rootBody.SrcRange)
 //@ contract (*decoder.PathDecoder).completionAtPos (d, ctx, body, outerBodyRng, bodySchema, pos) (result, err)
 //@   ghost effective after schemahelper.MergeBlockBodySchemas#1 : true
-//@   assert before completionAtPos#1 : [C07,C16,name:nested-body-read-with-its-effective-schema] effective && arg4 == mergedSchema
+//@   assert before completionAtPos#1 : [C07,C16,name:nested-body-read-with-its-effective-schema] effective
+//@   assert before completionAtPos#1 : [C07,C16,name:nested-body-read-with-the-merged-schema] arg4 == mergedSchema
 //@   assert before schemahelper.MergeBlockBodySchemas#1 : [C07,C16,name:effective-schema-of-this-block] arg1 == bodySchema.Blocks[block.Type]
 //@   requires [C08] !schema.ActiveSelfRefsFromContext(ctx)
 //@   assert before attrValueCompletionAtPos#1 : [C08] implies(schema.ActiveSelfRefsFromContext(arg1), bodySchema.Extensions != nil && bodySchema.Extensions.SelfRefs)
@@ -197,7 +198,8 @@ package decoder
 //@   assert before decoder.hoverContentForAttribute#1 : [C12,name:declared-attribute-is-described-by-its-own-schema] implies(!(bodySchema.Extensions != nil && bodySchema.Extensions.Count && name == "count") && !(bodySchema.Extensions != nil && bodySchema.Extensions.ForEach && name == "for_each") && haskey(bodySchema.Attributes, attr.Name), arg1 == bodySchema.Attributes[attr.Name])
 //@   assert before (*decoder.PathDecoder).newExpression#1 : [C12,name:declared-attribute-is-read-with-its-own-constraint] implies(!(bodySchema.Extensions != nil && bodySchema.Extensions.Count && name == "count") && !(bodySchema.Extensions != nil && bodySchema.Extensions.ForEach && name == "for_each") && haskey(bodySchema.Attributes, attr.Name), arg2 == bodySchema.Attributes[attr.Name].Constraint && arg1 == attr.Expr)
 //@   ghost effective after schemahelper.MergeBlockBodySchemas#1 : true
-//@   assert before hoverAtPos#1 : [C12,C16,name:nested-body-read-with-its-effective-schema] effective && arg3 == mergedSchema
+//@   assert before hoverAtPos#1 : [C12,C16,name:nested-body-read-with-its-effective-schema] effective
+//@   assert before hoverAtPos#1 : [C12,C16,name:nested-body-read-with-the-merged-schema] arg3 == mergedSchema
 //@   assert before schemahelper.MergeBlockBodySchemas#1 : [C12,C16,name:effective-schema-of-this-block] arg1 == bodySchema.Blocks[block.Type]
 //@ contract (*decoder.PathDecoder).symbolsInFile (d, filename) (result, err)
 //@   requires d != nil && d.pathCtx != nil
@@ -278,7 +280,8 @@ package decoder
 //@   ensures [C13] implies(typeis(ref.expr, "*hclsyntax.ScopeTraversalExpr"), len(result) <= 2 * len(as(ref.expr, "*hclsyntax.ScopeTraversalExpr").Traversal))
 //@ contract (*decoder.PathDecoder).tokensForBody (d, ctx, body, bodySchema, parentModifiers) (result)
 //@   ghost effective after schemahelper.MergeBlockBodySchemas#1 : true
-//@   assert before tokensForBody#1 : [C13,C16,name:nested-body-read-with-its-effective-schema] effective && arg3 == mergedSchema
+//@   assert before tokensForBody#1 : [C13,C16,name:nested-body-read-with-its-effective-schema] effective
+//@   assert before tokensForBody#1 : [C13,C16,name:nested-body-read-with-the-merged-schema] arg3 == mergedSchema
 //@   assert before schemahelper.MergeBlockBodySchemas#1 : [C13,C16,name:effective-schema-of-this-block] arg1 == bodySchema.Blocks[block.Type]
 //@   requires body != nil
 //@   loop 1 iter [C13] implies(!haskey(bodySchema.Attributes, name) && !(bodySchema.Extensions != nil && name == "count" && bodySchema.Extensions.Count) && !(bodySchema.Extensions != nil && name == "for_each" && bodySchema.Extensions.ForEach) && bodySchema.AnyAttribute == nil, len(tokens) == old(len(tokens)))
@@ -294,7 +297,8 @@ package decoder
 //@   assert before invoke:ReferenceOrigins#1 : [C10] implies(schema.ActiveSelfRefsFromContext(arg0), bodySchema.Extensions != nil && bodySchema.Extensions.SelfRefs)
 //@   assert before invoke:ReferenceOrigins#1 : [C10,C03,name:self-references-are-read-wherever-the-body-enables-them] implies(bodySchema.Extensions != nil && bodySchema.Extensions.SelfRefs, schema.ActiveSelfRefsFromContext(arg0))
 //@   ghost effective after schemahelper.MergeBlockBodySchemas#1 : true
-//@   assert before (*decoder.PathDecoder).referenceOriginsInBody#1 : [C10,C16,name:nested-body-read-with-its-effective-schema] effective && arg2 == mergedSchema
+//@   assert before (*decoder.PathDecoder).referenceOriginsInBody#1 : [C10,C16,name:nested-body-read-with-its-effective-schema] effective
+//@   assert before (*decoder.PathDecoder).referenceOriginsInBody#1 : [C10,C16,name:nested-body-read-with-the-merged-schema] arg2 == mergedSchema
 //@   assert before schemahelper.MergeBlockBodySchemas#1 : [C10,C16,name:effective-schema-of-this-block] arg0 == block.Block && arg1 == bodySchema.Blocks[block.Type]
 
 // ---- C16/C02: documentation links are attached to exactly the dependency keys that selected the body: one
@@ -370,7 +374,7 @@ package decoder
 //@   requires [C12] tuple.expr.Range().ContainsPos(pos)
 //@   ensures [C12] result == nil || (result.Range.ContainsPos(pos) && len(result.Content.Value) > 0)
 //@   assert before decoder.newExpression#1 : [C12] arg1 == elemExpr && arg2 == tuple.cons.Elems[i]
-//@   loop 1 invariant [C12] forall(j, 0, rangeindex + 1, implies(j < len(tuple.cons.Elems), !(eType.Exprs[j].Range().Start.Byte <= pos.Byte && pos.Byte < eType.Exprs[j].Range().End.Byte)))
+//@   loop 1 invariant [C12,claim] forall(j, 0, rangeindex + 1, implies(j < len(tuple.cons.Elems), !(eType.Exprs[j].Range().Start.Byte <= pos.Byte && pos.Byte < eType.Exprs[j].Range().End.Byte)))
 //@   ensures [C12,name:whole-tuple-only-when-no-known-element-is-under-the-cursor] implies(len(content) >= 0, forall(j, 0, len(eType.Exprs), implies(j < len(tuple.cons.Elems), !(eType.Exprs[j].Range().Start.Byte <= pos.Byte && pos.Byte < eType.Exprs[j].Range().End.Byte))))
 //@ contract (decoder.Tuple).SemanticTokens (tuple, ctx) (result)
 //@   assert before decoder.newExpression#1 : [C13] arg1 == elemExpr && arg2 == tuple.cons.Elems[i]
@@ -474,7 +478,8 @@ package decoder
 // ---- C09: count.index and each.* exist only in bodies whose schema enables the corresponding extension.
 //@ contract (*decoder.PathDecoder).decodeReferenceTargetsForBody (d, body, parentBlock, bodySchema) (result)
 //@   ghost effective after schemahelper.MergeBlockBodySchemas#1 : true
-//@   assert before decodeReferenceTargetsForBody#1 : [C09,C16,name:nested-body-read-with-its-effective-schema] effective && arg3 == mergedSchema
+//@   assert before decodeReferenceTargetsForBody#1 : [C09,C16,name:nested-body-read-with-its-effective-schema] effective
+//@   assert before decodeReferenceTargetsForBody#1 : [C09,C16,name:nested-body-read-with-the-merged-schema] arg3 == mergedSchema
 //@   assert before schemahelper.MergeBlockBodySchemas#1 : [C09,C16,name:effective-schema-of-this-block] arg1 == bodySchema.Blocks[blk.Type]
 //@   assert before decoder.countIndexReferenceTarget#1 : [C09] bodySchema.Extensions != nil && bodySchema.Extensions.Count && attr.Name == "count"
 //@   assert before decoder.forEachReferenceTargets#1 : [C09] bodySchema.Extensions != nil && bodySchema.Extensions.ForEach && attr.Name == "for_each"
